@@ -1,4 +1,5 @@
 import RotondaModel.Model.Mgr
+import RotondaModel.Model.Reconf
 /-! Line driver for the config (re)load model (C13). One reload *sequence* per line.
 
 case := step ('/' step)*
@@ -80,12 +81,138 @@ def runCase (v : Variant) (line : String) : String :=
     " / ".intercalate (r.2.map showResult) ++ s!" => U={showNames (r.1.runU.map (·.1))} T={showNames (r.1.runT.map (·.1))}"
   | none => "bad-case"
 
-partial def loop (v : Variant) (h : IO.FS.Stream) (out : IO.FS.Stream) : IO Unit := do
+/-! ### Live cases (`L|…`): the executed pipeline of `Model/Reconf.lean`
+
+case  := 'L|' event ('|' event)*
+event := 'c' r '@' port | ('a'|'w') r ':' pfxs '~' lost | ('L'|'F') doc '~' names '~' names '!' racing
+doc   := b0 ',' b1 ',' rib ',' nulls ',' broken     b := '-' | port     rib := '-' | srcs '.' v4 '.' path
+nulls := '' | n ':' srcs (';' n ':' srcs)*          racing := '' | ('A'|'W') r ':' pfxs '~' lost (';' …)*
+-/
+namespace LiveDriver
+open Rotonda.Reconf
+
+def nats (s : String) : Option (List Nat) :=
+  if s == "" then some [] else (s.splitOn "+").mapM (·.toNat?)
+
+structure Doc where
+  b0 : Option Nat
+  b1 : Option Nat
+  rib : Option (List Nat × Nat × Nat)
+  nulls : List (Nat × List Nat)
+  broken : Nat
+
+def parseB (s : String) : Option (Option Nat) := if s == "-" then some none else s.toNat?.map some
+
+def parseRib (s : String) : Option (Option (List Nat × Nat × Nat)) :=
+  if s == "-" then some none else
+  match s.splitOn "." with
+  | [srcs, v4, path] => do some (some (← nats srcs, ← v4.toNat?, ← path.toNat?))
+  | _ => none
+
+def parseNulls (s : String) : Option (List (Nat × List Nat)) :=
+  if s == "" then some [] else
+  (s.splitOn ";").mapM (fun t => match t.splitOn ":" with
+    | [n, srcs] => do some (← n.toNat?, ← nats srcs)
+    | _ => none)
+
+def parseDoc (s : String) : Option Doc :=
+  match s.splitOn "," with
+  | [b0, b1, rib, nulls, broken] => do
+    some { b0 := ← parseB b0, b1 := ← parseB b1, rib := ← parseRib rib, nulls := ← parseNulls nulls, broken := ← broken.toNat? }
+  | _ => none
+
+def bmpComp (n : Nat) : RawComp := ⟨n, some 0, .absent, none, 0, none⟩
+
+def Doc.toLoad (d : Doc) (residue moved : List Nat) : LLoad :=
+  let units := (match d.b0 with | some _ => [bmpComp 0] | none => []) ++ (match d.b1 with | some _ => [bmpComp 1] | none => [])
+    ++ (match d.rib with | some (srcs, _, _) => [⟨2, some 4, .many (srcs.map V.s), none, 0, none⟩] | none => [])
+  let targets := d.nulls.map (fun t => (⟨t.1, some 0, .many (t.2.map V.s), none, 0, none⟩ : RawComp))
+    ++ (if d.broken == 2 then [⟨9, none, .many [.s 0], none, 0, none⟩] else [])
+  let settings := (match d.b0 with | some p => [(0, Settings.bmp ⟨p⟩)] | none => []) ++ (match d.b1 with | some p => [(1, Settings.bmp ⟨p⟩)] | none => [])
+    ++ (match d.rib with | some (srcs, v4, path) => [(2, Settings.rib ⟨srcs, v4, 19, path, none⟩)] | none => [])
+  { load := { notToml := d.broken == 1, doc := ⟨units, targets⟩, roto := false, residue := residue, moved := moved }, settings := settings }
+
+def parseRoute (s : String) : Option Ev :=
+  match s.toList with
+  | k :: rest =>
+    let body := String.ofList rest
+    match body.splitOn ":" with
+    | [r, p] =>
+      match p.splitOn "~" with
+      | [pf, lost] => do some (.route (← r.toNat?) (k == 'a' || k == 'A') (← nats pf) (← nats lost))
+      | [pf] => do some (.route (← r.toNat?) (k == 'a' || k == 'A') (← nats pf) [])
+      | _ => none
+    | _ => none
+  | [] => none
+
+/-- one event of the case line = a list of model events observed together -/
+def parseEvent (s : String) : Option (List Ev) :=
+  match s.toList with
+  | 'c' :: rest =>
+    match (String.ofList rest).splitOn "@" with
+    | [r, p] => do some [.connect (← r.toNat?) (← p.toNat?)]
+    | _ => none
+  | 'a' :: _ => (parseRoute s).map (fun e => [e])
+  | 'w' :: _ => (parseRoute s).map (fun e => [e])
+  | k :: rest =>
+    if k == 'L' || k == 'F' then
+      match (String.ofList rest).splitOn "!" with
+      | [head, racing] =>
+        match head.splitOn "~" with
+        | [doc, res, mov] => do
+          let d ← parseDoc doc
+          let rs ← (if racing == "" then some [] else (racing.splitOn ";").mapM parseRoute)
+          some (.load (d.toLoad (← nats res) (← nats mov)) :: rs)
+        | _ => none
+      | _ => none
+    else none
+  | [] => none
+
+def insertSorted (lt : α → α → Bool) (x : α) : List α → List α
+  | [] => [x]
+  | y :: ys => if lt x y then x :: y :: ys else y :: insertSorted lt x ys
+def sortBy (lt : α → α → Bool) (l : List α) : List α := l.foldl (fun acc x => insertSorted lt x acc) []
+
+def showNats (l : List Nat) : String := ",".intercalate ((sortBy (· < ·) l).map toString)
+
+def showObs (s : Live) (res : Option Result) : String :=
+  let r := match res with | some (.ok _) => "ok" | some .err => "err" | some .panic => "panic" | none => "-"
+  let rib := match lookupU 2 s.units with
+    | some (.rib u) =>
+      let recs := sortBy (fun (a b : Rec) => a.pfx < b.pfx || (a.pfx == b.pfx && a.src < b.src)) u.store
+      s!"{u.cfg.path}:{if u.cfg.v4 ≤ 8 then "8" else "16"}:" ++ ",".intercalate (recs.map (fun (x : Rec) => s!"{x.pfx}.{x.src}{if x.active then "A" else "W"}"))
+    | _ => "-"
+  let b (n : Nat) := match lookupU n s.units with | some (.bmp u) => "[" ++ showNats u.sessions ++ "]" | _ => "-"
+  let ports := s.units.filterMap (fun e => match e.2 with | .bmp u => some u.bound | _ => none)
+  let opens := s.units.flatMap (fun e => match e.2 with | .bmp u => u.sessions | _ => [])
+  s!"{r} U={showNats (s.mgr.runU.map (·.1))} rib={rib} b0={b 0} b1={b 1} P={showNats ports} S={showNats opens}"
+
+def lastResult (v : Rotonda.Reconf.Variant) : Live → List Ev → Live × Option Result
+  | s, [] => (s, none)
+  | s, e :: es =>
+    let r := estep v s e
+    let rest := lastResult v r.1 es
+    (rest.1, match r.2 with | some x => some x | none => rest.2)
+
+def runLive (v : Rotonda.Reconf.Variant) (line : String) : String :=
+  match ((line.splitOn "|").drop 1).mapM parseEvent with
+  | none => "bad-case"
+  | some groups =>
+    let step := fun (acc : Live × List String) (g : List Ev) =>
+      let r := lastResult v acc.1 g
+      (r.1, acc.2 ++ [showObs r.1 r.2])
+    " / ".intercalate (groups.foldl step (Live.init, [])).2
+
+end LiveDriver
+
+partial def loop (v : Variant) (lv : Rotonda.Reconf.Variant) (h : IO.FS.Stream) (out : IO.FS.Stream) : IO Unit := do
   let line ← h.getLine
   if line.isEmpty then return ()
-  out.putStrLn (runCase v (line.trimAscii.toString))
-  loop v h out
+  let l := line.trimAscii.toString
+  out.putStrLn (if l.startsWith "L|" then LiveDriver.runLive lv l else runCase v l)
+  loop v lv h out
 
 def main (args : List String) : IO Unit := do
   let v : Variant := { unreach := !args.contains "unreach=repaired", stale := !args.contains "stale=repaired" }
-  loop v (← IO.getStdin) (← IO.getStdout)
+  let lv : Rotonda.Reconf.Variant := { mgr := v, pathIgnored := !args.contains "apipath=repaired", cloneStale := !args.contains "clonesender=repaired", queueWedge := !args.contains "clonequeue=repaired" }
+  loop v lv (← IO.getStdin) (← IO.getStdout)
